@@ -66,7 +66,8 @@ def handle : List String → String
     match m?, e?, ops.mapM parseOp with
     | some m, some e, some ops =>
       let a := ops.foldl stepAcc { f := openFile m e, k := 0, w := false, out := [] }
-      " ".intercalate ("ok" :: a.out.reverse)
+      -- second token: the disk right after `open` (what `openFile` left of the existing content)
+      " ".intercalate ("ok" :: ("open=" ++ hex (openFile m e).disk) :: a.out.reverse)
     | _, _, _ => "bad-op"
   | "fcall" :: kind :: ops =>
     match ops.mapM parseOp with
